@@ -630,6 +630,43 @@ impl Property for C08Prop {
                 }
             }
         }
+        // routes 3f: two prefix operators, one applied to the result of the other (`-(!x)` is x + 1,
+        // `!(-x)` is x - 1; only a prefix operator applied twice gives the operand back)
+        if args.len() == 1 {
+            let (ty, la, nested): (&str, String, Vec<(&str, &str, Exp)>) = match &args[0] {
+                Variable::Int(a) => (
+                    "int",
+                    lit_int(*a),
+                    vec![
+                        ("-", "-", Exp::Int(*a)),
+                        ("!", "!", Exp::Int(*a)),
+                        ("-", "!", Exp::Int(wrap(-((!*a) as i128)))),
+                        ("!", "-", Exp::Int(!wrap(-(*a as i128)))),
+                    ],
+                ),
+                Variable::Float(a) => ("float", lit_float(*a), vec![("-", "-", Exp::Float(float_bits(*a)))]),
+                Variable::Bool(a) => ("bool", a.to_string(), vec![("!", "!", Exp::Bool(*a))]),
+                _ => unreachable!(),
+            };
+            stats.label("nested prefix operators");
+            for (outer, inner, want) in nested {
+                for text in [
+                    format!("f := (a: {ty}) -> {ty} {{ return {outer}({inner}a); }}; f({la})"),
+                    format!("a := *(mut {ty} {la}); {outer}({inner}a)"),
+                    format!("f := (a: {ty}) -> {ty} {{ b := {inner}a; return {outer}b; }}; f({la})"),
+                    format!("{outer}({inner}{la})"),
+                ] {
+                    stats.eval();
+                    let o = run::run_text(&text, false);
+                    if !outcome_matches(&o, &want, true) {
+                        return fail(
+                            format!("C08:{kind}:{outer}{inner}:nested-prefix"),
+                            format!("`{text}`: expected {}, got {}", want.show(), o.short()),
+                        );
+                    }
+                }
+            }
+        }
         // route 4: compound assignment (value yielded, content afterwards, unchanged on error)
         if let Some((program, _initial)) = &routes.compound {
             stats.eval();
